@@ -106,7 +106,14 @@ def run_impl(case):
     import qubovert as qv
     H = qv.PCBO()
     out = {"obs": [], "error": None, "checks": []}
-    for c in case["calls"]:
+    by = C.Bystanders()
+    for j, c in enumerate(case["calls"]):
+        # a copy of the model as it is now stays behind (and, every other time, the history goes on with a copy instead)
+        if j % 2 == 0:
+            by.add(H.copy(), "a copy taken before call %d" % j)
+        else:
+            by.add(H, "the model a copy was taken from before call %d" % j)
+            H = H.copy()
         try:
             ops = [pyop(o) for o in c["ops"]]
         except (KeyError, ValueError, TypeError) as ex:
@@ -162,6 +169,7 @@ def run_impl(case):
                     break
         if H.num_ancillas != 0:
             out["checks"].append("%s used ancillas" % name)
+    out["checks"].extend(by.changed())
     return out
 
 
